@@ -13,7 +13,7 @@ while read name rest; do
   checks=$(echo "$rest" | awk '{$NF=""; print}')
   /verif/tools/mutant_wt.sh /verif/selftest/mutants/$name.diff $checks >> $OUT 2>&1
 done < /verif/selftest/mutants/REVERTS.txt
-for m in percent_ge_to_gt:C05 number_ge_to_gt:C05 open_before_generate:C17 status_swallow:C17 extend_to_assign:C16 cli_no_anchor:C13 preamble_before_imports:C19 l_before_m:C16 conv_dict_arg0:C18 conv_dict_token:C18 conv_literal_raises:C18; do
+for m in percent_ge_to_gt:C05 number_ge_to_gt:C05 open_before_generate:C17 status_swallow:C17 extend_to_assign:C16 cli_no_anchor:C13 preamble_before_imports:C19 conv_dict_arg0:C18 conv_dict_token:C18 conv_literal_raises:C18; do
   /verif/tools/mutant_wt.sh /verif/selftest/mutants/${m%%:*}.diff ${m##*:} >> $OUT 2>&1
 done
 echo MATRIX-DONE >> $OUT
